@@ -13,14 +13,18 @@ REQUIRED = set("\t\n\r%;=&,") | {chr(i) for i in range(32)} | {chr(127)}
 
 
 def r1(ctx):
-    tq = ctx.folder.const("parser", "_to_quote")
-    m = ctx.proj.module("parser")
+    # the effective encode set: the constant the encoder tests its character against (folded from the source)
+    n0 = len(ctx.obs)
+    tq = encoder_semantics(ctx, rule="R3")
+    del ctx.obs[n0:]   # the encoder's own obligations are reported once, under R3
+    q = require_func(ctx, "parser.Quoter.__missing__")
+    ctx.require(bool(tq), "the encoder's encode set could not be determined")
     missing = sorted(REQUIRED - set(tq))
     ctx.ob("R1", not missing, "every reserved character of GFF3 column 9 (TAB, LF, CR, %, ;, =, &, ',', 0x00-0x1F, 0x7F) is in the encode set",
-           node=m.toplevel.get("_to_quote"), sig="_to_quote covers the reserved set" if not missing else "_to_quote lacks %r" % missing)
+           func=q, sig="the encode set covers the reserved set" if not missing else "the encode set lacks %r" % missing)
     extra = sorted(set(tq) - REQUIRED)
-    ctx.ob("R1", not ({" ", '"'} & set(extra)), "blank and double quote are not encoded (GFF3 does not encode them)", node=m.toplevel.get("_to_quote"),
-           sig="_to_quote extras %r" % extra, nontrivial=False)
+    ctx.ob("R1", not ({" ", '"'} & set(extra)), "blank and double quote are not encoded (GFF3 does not encode them)", func=q,
+           sig="encode set extras %r" % extra, nontrivial=False)
     # cross-check: structural single-character literals of the gff3 split path and of feature_from_line
     sk = require_func(ctx, "parser._split_keyvals")
     lits = set()
@@ -107,71 +111,149 @@ def r2_r3(ctx):
     r_printer(ctx, rule="R2")
     r_decode_layer(ctx, rule="R2")
     r_roundtrip(ctx, rule="R2")
-    # ---- R3 the encoder
-    q = require_func(ctx, "parser.Quoter.__missing__")
-    b = [p for p in q.params if p != "self"][0]
-    fm = [c for c in calls_in(q.node) if call_attr(c) == "format" and const_str(c.func.value) is not None]
-    pc = [n for n in ast.walk(q.node) if isinstance(n, ast.BinOp) and isinstance(n.op, ast.Mod) and const_str(n.left)]
-    spec = None
-    arg = None
-    if fm:
-        spec = const_str(fm[0].func.value)
-        arg = norm(fm[0].args[0]) if fm[0].args else None
-        m = re.fullmatch(r"%\{(?:0)?:(0?)(\d+)([Xx])\}", spec)
-        shape = (m.group(1) == "0", int(m.group(2)), m.group(3)) if m else None
-    elif pc:
-        spec = const_str(pc[0].left)
-        arg = norm(pc[0].right)
-        m = re.fullmatch(r"%%%(0?)(\d+)([Xx])", spec)
-        shape = (m.group(1) == "0", int(m.group(2)), m.group(3)) if m else None
-    else:
-        shape = None
-    ok = shape == (True, 2, "X") and arg == "ord(%s)" % b
-    ctx.ob("R3", ok, "a reserved character becomes '%' + two upper-case hex digits of its code point", func=q, sig="encoder format %r of %s" % (spec, arg))
-    g = []
-    for n in ast.walk(q.node):
-        if isinstance(n, ast.If):
-            g.append(norm(n.test))
-    ok = any("%s in _to_quote" % b in t for t in g)
-    ctx.ob("R3", ok, "exactly the characters of the encode set are encoded", func=q, sig="encoder guard %s" % g)
-    els = [n for n in ast.walk(q.node) if isinstance(n, ast.Assign) and is_name(n.targets[0], "res") and is_name(n.value, b)]
-    ctx.ob("R3", bool(els), "every other character is passed through unchanged", func=q, sig="pass-through branch present" if els else "no pass-through branch", nontrivial=False)
+    # ---- R3 the encoder, by abstract evaluation of Quoter.__missing__ on a symbolic character
+    encoder_semantics(ctx)
     # per-character application to every value (and to values only) is decided by the printer template (R2)
 
 
+def encoder_semantics(ctx, rule="R3"):
+    """Quoter.__missing__(b) evaluated for a symbolic one-character b: the outcomes are partitioned by the membership
+    test(s) on b; returns the effective encode set (characters for which the result is the escape)."""
+    from ..absint import Interp, Sym, AStr, ACond, Unsupported
+    q = require_func(ctx, "parser.Quoter.__missing__")
+    bname = [p for p in q.params if p != "self"][0]
+    try:
+        traces = Interp(ctx).run(q, {bname: Sym("b", "str", None)})
+    except Unsupported as e:
+        ctx.require(False, "encoder outside the analysable subset: %s" % e)
+    sets = []
+    rows = []
+
+    def empty_decided(d):
+        """(is-empty outcome) when the decision speaks about b being the empty string, else None."""
+        v, out = d[0], d[1]
+        if isinstance(v, Sym) and v.name == "b":
+            return not out
+        if isinstance(v, ACond) and v.op in ("==", "!=") and {type(v.left), type(v.right)} == {Sym, str} and "" in (v.left, v.right):
+            return out if v.op == "==" else not out
+        return None
+    for t in traces:
+        is_empty = None
+        member = None
+        other = []
+        for d in t.decisions:
+            e_ = empty_decided(d)
+            if e_ is not None:
+                is_empty = e_
+                continue
+            v = d[0]
+            inner, neg = v, False
+            while isinstance(inner, ACond) and inner.op == "not":
+                inner, neg = inner.left, not neg
+            if isinstance(inner, ACond) and inner.op == "in" and isinstance(inner.left, Sym) and inner.left.name == "b" and isinstance(inner.right, (str, tuple, list, frozenset, set)):
+                sets.append(frozenset(inner.right))
+                member = d[1] != neg
+                continue
+            other.append(d)
+        if is_empty:
+            continue  # the encoder is applied per character: b is never empty
+        rows.append((member, other, t))
+    ctx.ob(rule, len(set(sets)) == 1 and not any(o for _m, o, _t in rows), "the encoder decides by one membership test of the character in a constant set", func=q,
+           sig="encoder decisions: membership in %d set(s), %d other decision(s)" % (len(set(sets)), sum(len(o) for _m, o, _t in rows)))
+    escape = lambda v: isinstance(v, AStr) and len(v.parts) == 2 and v.parts[0] == "%" and isinstance(v.parts[1], Sym) and v.parts[1].name in ("fmt(ord(b),02X)",)
+    same = lambda v: (isinstance(v, Sym) and v.name == "b") or (isinstance(v, AStr) and len(v.parts) == 1 and isinstance(v.parts[0], Sym) and v.parts[0].name == "b")
+    for member, _o, t in rows:
+        res = t.result[1] if t.result[0] == "return" else None
+        what = "in the encode set" if member else "outside the encode set" if member is False else "any"
+        if member:
+            ctx.ob(rule, escape(res), "a reserved character becomes '%' + two upper-case hex digits of its code point", func=q,
+                   sig="character %s -> %s" % (what, "escape %XX" if escape(res) else repr(res) if t.result[0] == "return" else "raises %s" % t.result[1]))
+        else:
+            ctx.ob(rule, same(res), "every other character is passed through unchanged", func=q,
+                   sig="character %s -> %s" % (what, "unchanged" if same(res) else repr(res) if t.result[0] == "return" else "raises %s" % t.result[1]))
+        stores = [e for e in t.events if e[0] == "setitem"]
+        okc = all(repr(e[3]) == repr(res) and same(e[2]) for e in stores)
+        ctx.ob(rule, okc, "what the encoder caches for a character is what it returns for it", func=q,
+               sig="cache store for a character %s %s" % (what, "matches" if okc else "differs from the returned value"), nontrivial=False)
+    ctx.floor(rule, len(rows), 2, "encoder outcomes (in the set / outside)")
+    return set(sets[0]) if sets else set()
+
+
 def r4(ctx):
+    """Partial operations of the attribute parser and of feature_from_line's column reads: constant-index subscripts and
+    fixed-arity unpacks are decided by the sequence-length abstract interpretation (lenai), under the calling contexts in
+    which helpers are actually reached; mapping reads keep their named justification (J4/J5/J6)."""
+    from ..lenai import Analysis
     dk = set(ctx.folder.const("constants", "dialect"))
     sk = require_func(ctx, "parser._split_keyvals")
-    funcs = [sk] + [g for lst in sk.nested.values() for g in lst]
+    ffl = require_func(ctx, "feature.feature_from_line")
     total = 0
     hist = {}
-    for f in funcs:
-        ctx.touch(f)
-        cfg = cfg_of(f)
-        for s in collect(f):
-            total += 1
-            j = justify(s, f, dk, cfg)
-            what = {"index": "index %s of %s" % (s.key, norm(s.base)), "key": "key %s of %s" % (norm(s.key) if not isinstance(s.key, int) else s.key, norm(s.base)),
-                    "unpack": "unpacking %s into %s names" % (norm(s.base), s.key)}[s.kind]
-            hist[j.split(" ")[0] if j else "none"] = hist.get(j.split(" ")[0] if j else "none", 0) + 1
-            ctx.ob("R4", j is not None, "partial operation (%s) cannot raise: it needs a guard, a split-result base, a dominating store/test, a dialect key or an enclosing handler" % what,
-                   node=s.node, func=f,
-                   sig="%s in `%s`: %s" % (what, norm(_stmt(s.node))[:70], j) if j else "%s in `%s`: unguarded" % (what, norm(_stmt(s.node))[:70]))
-    ctx.floor("R4", total, 25, "partial operations in the attribute parser")
+    for root, label in ((sk, "the attribute parser"), (ffl, "feature_from_line")):
+        an = Analysis(ctx.proj, max_depth=5)
+        an.analyse(root)
+        ctx.require(not an.truncated or root is ffl, "length analysis of %s incomplete: %s" % (root.qual, "; ".join(an.truncated[:3])))
+        visited = an.visited_funcs if root is sk else [ffl]
+        for f in visited:
+            ctx.touch(f)
+        n_root = 0
+        for _id, (node, f, ok, what) in sorted(an.sites.items(), key=lambda kv: (kv[1][1].qual, kv[1][0].lineno, kv[1][0].col_offset)):
+            if f not in visited:
+                continue
+            j = None
+            if not ok:
+                # an enclosing handler of the exception the operation raises (J6)
+                kind = "unpack" if isinstance(node, ast.Assign) else "index"
+                from ..partial import Site
+                st = Site(kind, node, node.value, 0, f)
+                j = _handler_only(st, f)
+            n_root += 1
+            hist["length" if ok else (j.split(" ")[0] if j else "none")] = hist.get("length" if ok else (j.split(" ")[0] if j else "none"), 0) + 1
+            ctx.ob("R4", ok or j is not None, "partial operation in %s cannot raise: the abstract length of the base covers it (or an enclosing handler catches it)" % label,
+                   node=node, func=f,
+                   sig="%s: %s" % (norm(node)[:60] if not isinstance(node, ast.Assign) else norm(node.targets[0]) + " = " + norm(node.value)[:40],
+                                   "covered" if ok else (j or "unguarded")),
+                   detail=what)
+        total += n_root
+        if root is sk:
+            ctx.floor("R4", n_root, 8, "index/unpack operations in the attribute parser")
+            # mapping reads
+            for f in visited:
+                cfg = cfg_of(f)
+                for s_ in collect(f):
+                    if s_.kind != "key":
+                        continue
+                    total += 1
+                    j = justify(s_, f, dk, cfg)
+                    hist[j.split(" ")[0] if j else "none"] = hist.get(j.split(" ")[0] if j else "none", 0) + 1
+                    what = "key %s of %s" % (norm(s_.key), norm(s_.base))
+                    ctx.ob("R4", j is not None, "mapping read (%s) cannot raise: dominating store/test, dialect key or enclosing handler" % what, node=s_.node, func=f,
+                           sig="%s in `%s`: %s" % (what, norm(_stmt(s_.node))[:70], j or "unguarded"))
+        else:
+            ctx.floor("R4", n_root, 1, "constant-index column reads in feature_from_line")
+    ctx.floor("R4", total, 20, "partial operations in the attribute parser and the line parser")
     ctx.extra["justifications"] = hist
-    ffl = require_func(ctx, "feature.feature_from_line")
-    cfg = cfg_of(ffl)
-    n = 0
-    for s in collect(ffl):
-        if s.kind == "index":
-            n += 1
-            j = justify(s, ffl, dk, cfg)
-            ctx.ob("R4", j is not None, "column access %s in feature_from_line cannot raise" % norm(s.node), node=s.node, func=ffl,
-                   sig="%s: %s" % (norm(s.node), j or "unguarded"))
-    ctx.floor("R4", n, 1, "constant-index column reads in feature_from_line")
+    funcs = [sk] + [g for lst in sk.nested.values() for g in lst]
     raises = [n_ for f in funcs for n_ in ast.walk(f.node) if isinstance(n_, ast.Raise)]
     ctx.ob("R4", not raises, "the attribute parser has no explicit raise", func=sk, sig="explicit raises: %d" % len(raises))
-    ctx.assume("R4: supplied dialect dictionaries are complete (every key of constants.dialect present); urllib.parse.unquote and re.match do not raise on str")
+    ctx.assume("R4: supplied dialect dictionaries are complete (every key of constants.dialect present); urllib.parse.unquote and re.match do not raise on str; "
+               "lists built locally are not shrunk through aliases; the arity of tuples returned by library calls (re groups) is not decided")
+
+
+def _handler_only(site, func):
+    """J6 only: an enclosing try whose handler catches the operation's exception."""
+    want = "IndexError" if site.kind == "index" else "ValueError"
+    child = site.node
+    for p in parents(site.node):
+        if p is func.node:
+            break
+        if isinstance(p, ast.Try) and any(child is s_ or any(child is x for x in ast.walk(s_)) for s_ in p.body):
+            for h in p.handlers:
+                t = norm(h.type) if h.type is not None else "Exception"
+                if want in t or t in ("Exception", "BaseException", "LookupError"):
+                    return "J6 (except %s)" % t
+        child = p
+    return None
 
 
 def _stmt(n):
